@@ -81,6 +81,29 @@ func (w *World) ruleCommaOkSides(r *Report, rule string, min int, want func(fn *
 				if okSide == nil || len(okSide.Preds) != 1 {
 					continue // ok is combined with other conditions or not tested by an if of its own
 				}
+				// `flag := ok && other` / `ok || other`: the if on ok is the short circuit of a
+				// compound condition whose result is tested later — the uses are governed by
+				// that result, which this rule does not follow: not an instance
+				compound := false
+				ifb := okSide.Preds[0]
+				for _, sx := range ifb.Succs {
+					for _, pi := range sx.Instrs {
+						phi, isPhi := pi.(*ssa.Phi)
+						if !isPhi {
+							break
+						}
+						for i, e := range phi.Edges {
+							if sx.Preds[i] == ifb {
+								if _, isC := e.(*ssa.Const); isC && typeStr(phi.Type()) == "bool" {
+									compound = true
+								}
+							}
+						}
+					}
+				}
+				if compound {
+					continue
+				}
 				n++
 				cnt++
 				bad := ""
@@ -89,6 +112,10 @@ func (w *World) ruleCommaOkSides(r *Report, rule string, min int, want func(fn *
 					switch ref.(type) {
 					case *ssa.Phi, *ssa.DebugRef:
 						continue
+					case *ssa.Return:
+						continue // handed back beside the flag that says it is not valid
+					case *ssa.Store:
+						continue // spilled to a variable cell (captured by a closure): its later reads are not followed
 					}
 					uses++
 					ub := ref.Block()
